@@ -25,7 +25,7 @@ BUDGETS = {
     "C11": {"quick": {"procs": 32, "runs": 40}, "thorough": {"procs": 192, "runs": 100}},
     "C12": {"quick": {"procs": 32, "runs": 40}, "thorough": {"procs": 256, "runs": 300}},
     "C13": {"quick": {"procs": 32, "runs": 20}, "thorough": {"procs": 192, "runs": 1200}},
-    "C14": {"quick": {"procs": 32, "runs": 15}, "thorough": {"procs": 256, "runs": 150}},
+    "C14": {"quick": {"procs": 32, "runs": 30}, "thorough": {"procs": 256, "runs": 150}},
     "C15": {"quick": {"procs": 32, "runs": 25}, "thorough": {"procs": 256, "runs": 350}},
     "C16": {"quick": {"procs": 32, "runs": 24}, "thorough": {"procs": 256, "runs": 360}},
     "C17": {"quick": {"procs": 32, "runs": 12}, "thorough": {"procs": 192, "runs": 120}},
